@@ -9,7 +9,7 @@
    path (branch outcomes, iteration counts) -- not the paper's quantitative soundness. *)
 From Coq Require Import String List Bool.
 From PM Require Import Semiring Poly Rel Analysis Calculus Exec.
-From PM Require An_stmts Exec_proofs Exec_proofs2.
+From PM Require An_stmts Exec_proofs Exec_proofs2 Exec_proofs_closed.
 Import ListNotations.
 Open Scope string_scope.
 
@@ -50,10 +50,10 @@ Proof. exact Exec_proofs2.guard_in_body_no_L. Qed.
 
 (* (3) what the tool reports: for a function the analysis model reports not infinite and a choice
    vector it accepts, column v of the reported matrix (Relation.apply_choice, from which Bound.calculate
-   reads the bound triple) constrains every execution.  The premise [finite_result_stmt] (theories/
-   An_stmts.v: the reported matrix at an accepted vector is the derivation's matrix) is property C01's
-   theorem, proved in An_func.v from the simulation lemmas that are still being closed; it is a
-   premise here, not an assumption of the development. *)
+   reads the bound triple) constrains every execution.  First with C01's statement [finite_result_stmt]
+   (theories/An_stmts.v: the reported matrix at an accepted vector is the derivation's matrix) as an
+   explicit premise -- this form does not depend on the simulation proof --, then with the premise
+   discharged by the closed theorem An_closed.finite_result. *)
 Theorem C03_reported :
   An_stmts.finite_result_stmt ->
   forall f stop res r cs p st' v,
@@ -62,6 +62,14 @@ Theorem C03_reported :
     exec_func p f = Some st' -> In v (func_vars f) ->
     shape_ok (fun u => tab_get (func_vars f) (apply_choice r (choice_of_list cs)) u v) (st' v).
 Proof. exact Exec_proofs2.reported_func. Qed.
+
+Theorem C03_reported_closed :
+  forall f stop res r cs p st' v,
+    An_stmts.func_ok f -> analyse f stop = ROk res -> fr_infinite res = false -> fr_rel res = Some r ->
+    An_stmts.vec_ok (fr_index res) cs -> accepted (fr_inf_deltas res) cs = true ->
+    exec_func p f = Some st' -> In v (func_vars f) ->
+    shape_ok (fun u => tab_get (func_vars f) (apply_choice r (choice_of_list cs)) u v) (st' v).
+Proof. exact Exec_proofs_closed.reported_closed. Qed.
 
 (* the statement is satisfiable and discriminating on the paper's example 3.1
    (X1 = X2 + X3; X1 = X1 + X1 at choice (0,0)): the derived column is accepted, a wrong one is not *)
@@ -81,4 +89,5 @@ Print Assumptions C03_fragment_inhabited.
 Print Assumptions C03_guard_in_body.
 Print Assumptions C03_guard_in_body_no_L.
 Print Assumptions C03_reported.
+Print Assumptions C03_reported_closed.
 Print Assumptions C03_example.
